@@ -97,12 +97,13 @@ example : Spec.Tera.gridPos 0xFFFF = 0xC2800000 ∧ Spec.Tera.gridPos 0 = 0x4280
 Full statement (design §6.16):
   `c16_pbd_chain (f) (a b)` : `WF f → HasSibling a →
       getDeformMatrices (parse (encode f)) a b = some (bonesAlong (parentChain f a b))`.
-Proved below: the chain walk on the **parsed records** (`Pbd.toModel f` = the header holding exactly the
-items, links, bone names and matrices of `f`), for every forest, every pair of body ids, with termination
-of the Rust `loop` (fuel `links.len() + 1` never runs out on a forest).  The remaining step
-`fromExisting (encode f) = .ok (toModel f)` (offset tables, out-of-line names and matrices) is
-covered by the correspondence only — every `pbd` case runs the real parser and the model's parser
-on the file produced by `Spec.Pbd.encode` — hence `_partial`. -/
+It is proved in two halves.  Here: the chain walk on the **parsed records** (`Pbd.toModel f` = the header
+holding exactly the items, links, bone names and matrices of `f`), for every forest, every pair of body ids,
+with termination of the Rust `loop` (fuel `links.len() + 1` never runs out on a forest) — this theorem keeps
+its historical name `c16_pbd_chain_partial`.  At the end of this file: the byte-level half
+`fromExisting (encode f) = .ok (toModel f)` (`c16_pbd_parse_encode`: offset tables, out-of-line names and
+matrices, padding) and the composition `c16_pbd_chain`, plus the same for files in any layout the reader
+accepts (`c16_pbd_parse_layout`, `c16_pbd_parse_placed`, `c16_pbd_chain_placed`). -/
 
 /-- `get_deform_matrices(a, b)` returns the named matrices of the first item with body id `a`, then
 those of its ancestors, nearest first, up to but excluding the item with body id `b` (through the root
@@ -246,13 +247,14 @@ example : Pbd.query (Spec.Pbd.encode exampleMixed) 7 9 =
 
 /-! ### any layout the reader accepts (`Spec/PbdLayout.lean`)
 
-The format does not fix where an item's block lies: the item row records an absolute offset.  The two
-theorems above are instances of the following ones, which do not depend on the canonical layout. -/
+The format does not fix where an item's block lies: the item row records an absolute offset, and
+`Spec.Pbd.encode` is only one way to lay a file out (blocks back to back in item order, reserved bytes
+zero).  The following theorems do not depend on that choice. -/
 
 /-- **general position**: whenever the count, the item rows (with any block offsets and any 4 reserved
 bytes each) and the link table are followed by data in which every row's offset points at a well-formed
-encoded block of that item's bones — blocks in any order, overlapping-free or shared, with anything
-between and behind them — `from_existing` returns exactly the items of the rows and the links. -/
+encoded block of that item's bones — blocks in any order, disjoint or shared, with anything between and
+behind them — `from_existing` returns exactly the items of the rows and the links. -/
 theorem c16_pbd_parse_layout (rows : List Spec.Pbd.Row) (links : List Spec.Pbd.Link) (data : Bytes)
     (h : Spec.Pbd.WFRows rows links data) :
     Pbd.fromExisting (Spec.Pbd.assemble rows links data) =
